@@ -23,6 +23,7 @@ def SimS (ats : List Atom) (sats : List SAtom) (B : Shape) : Prop :=
   plainLens ats = SAtom.lens sats ∧
   bcastAll (advShapes ats) = bcastAll (SAtom.arrShapes sats) ∧
   (∀ s ∈ SAtom.arrShapes sats, s = B) ∧ allOk ats = true ∧
+  axesBefore ats = SAtom.axesBeforeAdv sats ∧
   ∀ po ac, Valid B ac → SAtom.flag sats ac = false → walk ats po ac = SAtom.walk sats po ac
 
 /-- agreement on a suffix of the index, for an incoming post-mask that represents the flags `F0` of
@@ -34,7 +35,7 @@ def AgreeG (w : Nat) (es : List Entry) (rest : Shape) (post : PostMask) (B : Sha
   (∀ pre post' shs, prog w rest es post = some (pre, post', shs) →
     (specAtoms w rest es = none → atoms rest w pre = none) ∧
     (∀ sats, specAtoms w rest es = some sats →
-      (∀ s ∈ shs, s = B) ∧ PostRep post' B (fun i => F0 i || SAtom.flag sats i) ∧
+      shs = SAtom.arrShapes sats ∧ PostRep post' B (fun i => F0 i || SAtom.flag sats i) ∧
         ∃ ats, atoms rest w pre = some ats ∧ SimS ats sats B ∧ Q ats sats))
 
 theorem agreeG_mono (w : Nat) (es : List Entry) (rest : Shape) (post : PostMask) (B : Shape)
@@ -61,10 +62,17 @@ theorem agreeG_nil (w : Nat) (rest : Shape) (post : PostMask) (B : Shape) (F0 : 
     intro sats hs
     simp only [specAtoms, Option.some.injEq] at hs
     subst hs
-    refine ⟨by simp, postRep_congr _ _ _ _ (fun i _ => by simp [SAtom.flag]) hp, [], by simp [atoms], ?_, trivial⟩
-    exact ⟨rfl, rfl, by simp [SAtom.arrShapes], rfl, fun _ _ _ _ => rfl⟩
+    refine ⟨rfl, postRep_congr _ _ _ _ (fun i _ => by simp [SAtom.flag]) hp, [], by simp [atoms], ?_, trivial⟩
+    exact ⟨rfl, rfl, by simp [SAtom.arrShapes], rfl, rfl, fun _ _ _ _ => rfl⟩
   | cons n sh =>
     exact ⟨fun _ => by simp [atoms], fun sats hs => by simp [specAtoms] at hs⟩
+
+theorem arrShapes_append : ∀ (a b : List SAtom),
+    SAtom.arrShapes (a ++ b) = SAtom.arrShapes a ++ SAtom.arrShapes b := by
+  intro a
+  induction a with
+  | nil => intro b; rfl
+  | cons x r ih => intro b; cases x <;> simp [SAtom.arrShapes, ih]
 
 /-- one entry: if the three readings step alike — the loop emits `p` and updates the post-mask to
     `post1`, the specification emits the atoms `sa`, NumPy the atoms `A` — agreement propagates -/
@@ -72,7 +80,7 @@ theorem agreeG_step (w : Nat) (es : List Entry) (rest rest' : Shape) (post : Pos
     (F0 fl : Index → Bool) (e : Entry) (p : NEntry) (u : PostUpd) (so : Option Shape)
     (sa : List SAtom) (A : List Atom) (Q : List Atom → List SAtom → Prop)
     (hpe : prepEntry rest 0 e = some (p, u, so))
-    (hso : ∀ s ∈ so.toList, s = B)
+    (hso : so.toList = SAtom.arrShapes sa)
     (hu : PostRep post B F0 → ∃ post1, u.apply post = some post1 ∧ PostRep post1 B (fun i => F0 i || fl i))
     (hdrop : rest.drop (e.padv w) = rest')
     (hspec : specAtoms w rest (e :: es) = (specAtoms w rest' es).map (sa ++ ·))
@@ -124,10 +132,7 @@ theorem agreeG_step (w : Nat) (es : List Entry) (rest rest' : Shape) (post : Pos
           subst hs
           obtain ⟨k0, k1, ats, k3, k4, _⟩ := j3 sats' hs'
           refine ⟨?_, ?_, A ++ ats, by rw [hat1, k3]; rfl, hsim ats sats' k4, trivial⟩
-          · intro s hs
-            rcases List.mem_append.mp hs with h1 | h1
-            · exact hso s h1
-            · exact k0 s h1
+          · rw [hso, k0, arrShapes_append]
           · refine postRep_congr po B _ _ ?_ k1
             intro i hi
             rw [hflag _ _ hi, Bool.or_assoc]
@@ -136,17 +141,19 @@ theorem agreeG_step (w : Nat) (es : List Entry) (rest rest' : Shape) (post : Pos
 
 theorem simS_plain (a : SAtom) (ha : a.isPlainA = true) (B : Shape) (ats : List Atom) (sats : List SAtom)
     (h : SimS ats sats B) : SimS ([a.toAtom] ++ ats) ([a] ++ sats) B := by
-  obtain ⟨h1, h2, h3, h4, h6⟩ := h
+  obtain ⟨h1, h2, h3, h4, h5, h6⟩ := h
   cases a with
   | axis l fl =>
     refine ⟨by simp [SAtom.toAtom, plainLens, SAtom.lens, h1], by simpa [SAtom.toAtom, advShapes, SAtom.arrShapes] using h2,
-      by simpa [SAtom.arrShapes] using h3, by simpa [SAtom.toAtom, allOk] using h4, ?_⟩
+      by simpa [SAtom.arrShapes] using h3, by simpa [SAtom.toAtom, allOk] using h4,
+      by simp [SAtom.toAtom, axesBefore, SAtom.axesBeforeAdv, h5], ?_⟩
     intro po ac hac hfl
     simp only [List.singleton_append, SAtom.flag, Bool.or_eq_false_iff] at hfl
     simp [SAtom.toAtom, walk, SAtom.walk, h6 po.tail ac hac hfl.2]
   | new =>
     refine ⟨by simp [SAtom.toAtom, plainLens, SAtom.lens, h1], by simpa [SAtom.toAtom, advShapes, SAtom.arrShapes] using h2,
-      by simpa [SAtom.arrShapes] using h3, by simpa [SAtom.toAtom, allOk] using h4, ?_⟩
+      by simpa [SAtom.arrShapes] using h3, by simpa [SAtom.toAtom, allOk] using h4,
+      by simp [SAtom.toAtom, axesBefore, SAtom.axesBeforeAdv, h5], ?_⟩
     intro po ac hac hfl
     simp only [List.singleton_append, SAtom.flag] at hfl
     simp [SAtom.toAtom, walk, SAtom.walk, h6 po.tail ac hac hfl]
@@ -172,8 +179,8 @@ theorem bcastAll_nil_cons (X : List Shape) : bcastAll ([] :: X) = bcastAll X := 
 theorem simS_fix (n : Nat) (k : Option Nat) (B : Shape) (ats : List Atom) (sats : List SAtom)
     (h : SimS ats sats B) :
     SimS ([Atom.adv [] (fun _ => [k.getD 0]) true] ++ ats) ([SAtom.fix n k] ++ sats) B := by
-  obtain ⟨h1, h2, h3, h4, h6⟩ := h
-  refine ⟨by simp [plainLens, SAtom.lens, h1], ?_, by simpa [SAtom.arrShapes] using h3, by simpa [allOk] using h4, ?_⟩
+  obtain ⟨h1, h2, h3, h4, _, h6⟩ := h
+  refine ⟨by simp [plainLens, SAtom.lens, h1], ?_, by simpa [SAtom.arrShapes] using h3, by simpa [allOk] using h4, rfl, ?_⟩
   · simp only [List.singleton_append, advShapes, SAtom.arrShapes, bcastAll_nil_cons, h2]
   · intro po ac hac hfl
     simp only [List.singleton_append, SAtom.flag, Bool.or_eq_false_iff] at hfl
@@ -183,8 +190,8 @@ theorem simS_arr (B : Shape) (f f' : Index → List Nat) (fl : Index → Bool)
     (hf : ∀ i, Valid B i → fl i = false → f i = f' i) (ats : List Atom) (sats : List SAtom)
     (h : SimS ats sats B) :
     SimS ([Atom.adv B f true] ++ ats) ([SAtom.arr B f' fl] ++ sats) B := by
-  obtain ⟨h1, h2, h3, h4, h6⟩ := h
-  refine ⟨by simp [plainLens, SAtom.lens, h1], ?_, ?_, by simpa [allOk] using h4, ?_⟩
+  obtain ⟨h1, h2, h3, h4, _, h6⟩ := h
+  refine ⟨by simp [plainLens, SAtom.lens, h1], ?_, ?_, by simpa [allOk] using h4, rfl, ?_⟩
   · simp only [List.singleton_append, advShapes, SAtom.arrShapes, bcastAll, h2]
   · intro s hs
     simp only [List.singleton_append, SAtom.arrShapes, List.mem_cons] at hs
@@ -263,6 +270,16 @@ theorem agreeG_list (w : Nat) (B : Shape) : ∀ (es : List Entry), es.all (Entry
     have noflag : ∀ (sa : List SAtom), (∀ x ac, SAtom.flag (sa ++ x) ac = SAtom.flag x ac) →
         ∀ x ac, Valid B ac → SAtom.flag (sa ++ x) ac = ((fun _ => false) ac || SAtom.flag x ac) := by
       intro sa h x ac _; simp [h x ac]
+    have hsoN : ∀ (sa : List SAtom), sa.all SAtom.isPlainA = true ∨ (∃ n k, sa = [SAtom.fix n k]) →
+        (none : Option Shape).toList = SAtom.arrShapes sa := by
+      intro sa h
+      rcases h with h | ⟨n, k, rfl⟩
+      · induction sa with
+        | nil => rfl
+        | cons a r ih =>
+          simp only [List.all_cons, Bool.and_eq_true] at h
+          cases a <;> simp_all [SAtom.isPlainA, SAtom.arrShapes]
+      · rfl
     have hax : ∀ (L : List Nat), (L.map fun n => SAtom.axis (List.range n) false).all SAtom.isPlainA = true := by
       intro L
       rw [List.all_eq_true]
@@ -272,7 +289,7 @@ theorem agreeG_list (w : Nat) (B : Shape) : ∀ (es : List Entry), es.all (Entry
     cases e with
     | none =>
       exact agreeG_step w es rest rest post B F0 (fun _ => false) .none .newaxis .keep none [SAtom.new]
-        [Atom.newaxis] _ (by simp [prepEntry]) (by simp) (fun hp => postRep_keep post B F0 hp)
+        [Atom.newaxis] _ (by simp [prepEntry]) (hsoN _ (by first | exact Or.inl rfl | exact Or.inl (hax _) | exact Or.inr ⟨_, _, rfl⟩)) (fun hp => postRep_keep post B F0 hp)
         (by simp [Entry.padv, Entry.isEll, Entry.advance]) (by rw [specAtoms_none]; rfl)
         (fun ps => by rw [atoms_newaxis]; rfl) (fun ats sats h => simS_plain .new rfl B ats sats h)
         (noflag _ (fun x ac => by simp [SAtom.flag])) (fun post1 => ih hbs rest hpos post1 _)
@@ -280,7 +297,7 @@ theorem agreeG_list (w : Nat) (B : Shape) : ∀ (es : List Entry), es.all (Entry
       exact agreeG_step w es rest (rest.drop w) post B F0 (fun _ => false) .ell .ell .keep none
         ((rest.take w).map fun n => SAtom.axis (List.range n) false)
         (((rest.take w).map fun n => SAtom.axis (List.range n) false).map SAtom.toAtom) _
-        (by simp [prepEntry]) (by simp) (fun hp => postRep_keep post B F0 hp)
+        (by simp [prepEntry]) (hsoN _ (by first | exact Or.inl rfl | exact Or.inl (hax _) | exact Or.inr ⟨_, _, rfl⟩)) (fun hp => postRep_keep post B F0 hp)
         (by simp [Entry.padv, Entry.isEll]) (by rw [specAtoms_ell])
         (fun ps => by rw [atoms_ell]; simp [List.map_map, Function.comp_def, SAtom.toAtom])
         (fun ats sats h => simS_plains _ (hax (rest.take w)) B ats sats h)
@@ -292,7 +309,7 @@ theorem agreeG_list (w : Nat) (B : Shape) : ∀ (es : List Entry), es.all (Entry
       | cons n sh =>
         by_cases hl : l.all (· < n) = true
         · exact agreeG_step w es (n :: sh) sh post B F0 (fun _ => false) (.slice full l) (.coords l) .keep none
-            [SAtom.axis l false] [Atom.plain l] _ (by simp [prepEntry]) (by simp)
+            [SAtom.axis l false] [Atom.plain l] _ (by simp [prepEntry]) (hsoN _ (by first | exact Or.inl rfl | exact Or.inl (hax _) | exact Or.inr ⟨_, _, rfl⟩))
             (fun hp => postRep_keep post B F0 hp) (by simp [Entry.padv, Entry.isEll, Entry.advance])
             (by rw [specAtoms_cons_cons w n sh _ es (by simp) (by simp) (by simp)]; simp [specEntry, hl])
             (fun ps => by simp [atoms, hl]) (fun ats sats h => simS_plain (.axis l false) rfl B ats sats h)
@@ -311,7 +328,7 @@ theorem agreeG_list (w : Nat) (B : Shape) : ∀ (es : List Entry), es.all (Entry
         | true =>
           exact agreeG_step w es (n :: sh) sh post B F0 (fun _ => true) (.bool v true)
             (.coords (List.range (min 1 n))) .setTrue none [SAtom.axis (List.range (min 1 n)) true]
-            [Atom.plain (List.range (min 1 n))] _ (by simp [prepEntry, prepBool]) (by simp)
+            [Atom.plain (List.range (min 1 n))] _ (by simp [prepEntry, prepBool]) (hsoN _ (by first | exact Or.inl rfl | exact Or.inl (hax _) | exact Or.inr ⟨_, _, rfl⟩))
             (fun _ => postRep_setTrue post B F0) (by simp [Entry.padv, Entry.isEll, Entry.advance])
             (by rw [hsp]; simp [specEntry]) (fun ps => by simp [atoms, range_min_all_lt])
             (fun ats sats h => simS_plain (.axis _ true) rfl B ats sats h)
@@ -321,7 +338,7 @@ theorem agreeG_list (w : Nat) (B : Shape) : ∀ (es : List Entry), es.all (Entry
           | true =>
             exact agreeG_step w es (n :: sh) sh post B F0 (fun _ => false) (.bool true false)
               (.coords (List.range n)) .keep none [SAtom.axis (List.range n) false] [Atom.plain (List.range n)] _
-              (by simp [prepEntry, prepBool]) (by simp) (fun hp => postRep_keep post B F0 hp)
+              (by simp [prepEntry, prepBool]) (hsoN _ (by first | exact Or.inl rfl | exact Or.inl (hax _) | exact Or.inr ⟨_, _, rfl⟩)) (fun hp => postRep_keep post B F0 hp)
               (by simp [Entry.padv, Entry.isEll, Entry.advance])
               (by rw [hsp]; simp [specEntry]) (fun ps => by simp [atoms, range_all_lt])
               (fun ats sats h => simS_plain (.axis _ false) rfl B ats sats h)
@@ -329,7 +346,7 @@ theorem agreeG_list (w : Nat) (B : Shape) : ∀ (es : List Entry), es.all (Entry
           | false =>
             exact agreeG_step w es (n :: sh) sh post B F0 (fun _ => false) (.bool false false)
               (.coords []) .keep none [SAtom.axis [] false] [Atom.plain []] _
-              (by simp [prepEntry, prepBool]) (by simp) (fun hp => postRep_keep post B F0 hp)
+              (by simp [prepEntry, prepBool]) (hsoN _ (by first | exact Or.inl rfl | exact Or.inl (hax _) | exact Or.inr ⟨_, _, rfl⟩)) (fun hp => postRep_keep post B F0 hp)
               (by simp [Entry.padv, Entry.isEll, Entry.advance])
               (by rw [hsp]; simp [specEntry]) (fun ps => by simp [atoms])
               (fun ats sats h => simS_plain (.axis _ false) rfl B ats sats h)
@@ -352,7 +369,7 @@ theorem agreeG_list (w : Nat) (B : Shape) : ∀ (es : List Entry), es.all (Entry
             | some jj => exact ⟨jj, rfl⟩
           exact agreeG_step w es (n :: sh) sh post B F0 (fun _ => false) (.int k m) (.int j) .keep none
             [SAtom.fix n (some jj)] [Atom.adv [] (fun _ => [(some jj).getD 0]) true] _
-            (by simp [prepEntry, hj]) (by simp) (fun hp => postRep_keep post B F0 hp)
+            (by simp [prepEntry, hj]) (hsoN _ (by first | exact Or.inl rfl | exact Or.inl (hax _) | exact Or.inr ⟨_, _, rfl⟩)) (fun hp => postRep_keep post B F0 hp)
             (by simp [Entry.padv, Entry.isEll, Entry.advance])
             (by rw [hsp]; simp [specEntry, hm.1, hjj]) (fun ps => by simp [atoms, hnj, hjj])
             (fun ats sats h => simS_fix n (some jj) B ats sats h)
@@ -368,7 +385,7 @@ theorem agreeG_list (w : Nat) (B : Shape) : ∀ (es : List Entry), es.all (Entry
           have h0 : normIdx n 0 = some 0 := by simp [normIdx, hn]
           exact agreeG_step w es (n :: sh) sh post B F0 (fun _ => true) (.int k m) (.int 0) .setTrue none
             [SAtom.fix n none] [Atom.adv [] (fun _ => [(none : Option Nat).getD 0]) true] _
-            (by simp [prepEntry, hj]) (by simp) (fun _ => postRep_setTrue post B F0)
+            (by simp [prepEntry, hj]) (hsoN _ (by first | exact Or.inl rfl | exact Or.inl (hax _) | exact Or.inr ⟨_, _, rfl⟩)) (fun _ => postRep_setTrue post B F0)
             (by simp [Entry.padv, Entry.isEll, Entry.advance])
             (by rw [hsp]; simp [specEntry, hk]) (fun ps => by simp [atoms, h0])
             (fun ats sats h => simS_fix n none B ats sats h)
@@ -380,7 +397,7 @@ theorem agreeG_list (w : Nat) (B : Shape) : ∀ (es : List Entry), es.all (Entry
       | nil => exact agreeG_reject w es [] post v.shape F0 _ (by simp [prepEntry]) (specAtoms_nil_cons w _ es (by simp) (by simp) (by simp))
       | cons n sh =>
         have hn : 0 < n := hpos n (by simp)
-        have hvalid : ∀ i, Valid B i → i ∈ indices v.shape := fun i hi => (mem_indices _ _).2 hi
+        have hvalid : ∀ i, Valid v.shape i → i ∈ indices v.shape := fun i hi => (mem_indices _ _).2 hi
         have hok : (indices v.shape).all (fun i => (normIdx n ((prepIntArrVals n v (prepIntArrMask n v m)
             (if (indices v.shape).any (oobAt n v) = true then true else (prepIntArrMask n v m).any v.shape)) i)).isSome) = true := by
           rw [List.all_eq_true]; intro i _; exact prepIntArrVals_safe n v _ _ i hn
@@ -391,7 +408,7 @@ theorem agreeG_list (w : Nat) (B : Shape) : ∀ (es : List Entry), es.all (Entry
           [SAtom.arr v.shape (fun i => [(normIdx n (v.get i)).getD 0]) (iarrFlag n v m)]
           [Atom.adv v.shape (fun i => [(normIdx n ((prepIntArrVals n v (prepIntArrMask n v m)
             (if (indices v.shape).any (oobAt n v) = true then true else (prepIntArrMask n v m).any v.shape)) i)).getD 0]) true] _
-          rfl (by simp) ?_ (by simp [Entry.padv, Entry.isEll, Entry.advance])
+          rfl rfl ?_ (by simp [Entry.padv, Entry.isEll, Entry.advance])
           (by rw [specAtoms_cons_cons w n sh _ es (by simp) (by simp) (by simp)]
               simp only [specEntry, Option.bind_some]; rfl)
           (fun ps => by simp only [atoms, hok]; rfl) ?_ ?_
@@ -444,7 +461,7 @@ theorem agreeG_list (w : Nat) (B : Shape) : ∀ (es : List Entry), es.all (Entry
           (some [(boolSel v m).length])
           [SAtom.arr B (fun i => (boolSel v m).getD (i.headD 0) []) (fun i => m.bit ((boolSel v m).getD (i.headD 0) []))]
           [Atom.adv B (fun i => (boolSel v m).getD (i.headD 0) []) true] _
-          ?_ (by simp [hB]) ?_ (by simp [Entry.padv, Entry.isEll, Entry.advance])
+          ?_ (by simp [SAtom.arrShapes, hB]) ?_ (by simp [Entry.padv, Entry.isEll, Entry.advance])
           (by simp only [specAtoms, hs1, true_and, hB]; simp)
           (fun ps => by simp only [atoms, hs1, if_true, ← hB]; rfl)
           (fun ats sats h => simS_arr B _ _ _ (fun _ _ _ => rfl) ats sats h)
@@ -466,7 +483,7 @@ theorem agreeG_list (w : Nat) (B : Shape) : ∀ (es : List Entry), es.all (Entry
               exact ⟨p1, a1, postRep_congr _ _ _ _ (fun i _ => by simp [Mask.bit]) a2⟩
           | arr a =>
             obtain ⟨p1, a1, a2⟩ := postRep_orArr post B F0
-              ⟨[(boolSel v m).length], fun i => a.get ((boolSel v (.arr a)).getD (i.headD 0) [])⟩ (by simpa using hB) hp
+              ⟨[(boolSel v (.arr a)).length], fun i => a.get ((boolSel v (.arr a)).getD (i.headD 0) [])⟩ (by simpa using hB) hp
             exact ⟨p1, a1, postRep_congr _ _ _ _ (fun i _ => by simp [Mask.bit]) a2⟩
       · refine agreeG_reject w es rest post B F0 _ ?_ ?_
         · cases rest with
@@ -480,5 +497,379 @@ theorem agreeG_list (w : Nat) (B : Shape) : ∀ (es : List Entry), es.all (Entry
             have : ¬ ((n :: sh).take v.shape.length = v.shape) := fun h => hs ⟨h, by simp⟩
             simp [specAtoms, this]
     | _ => simp [Entry.okB, Entry.isBasic, Entry.arrShape] at hbe
+
+/-! #### placement on the specification's side, for the first advanced atom -/
+
+theorem axesBeforeAdv_axes_append (L : List Nat) (x : List SAtom) :
+    SAtom.axesBeforeAdv (L.map (fun n => SAtom.axis (List.range n) false) ++ x) = L.length + SAtom.axesBeforeAdv x := by
+  induction L with
+  | nil => simp
+  | cons n L ih => simp only [List.map_cons, List.cons_append, SAtom.axesBeforeAdv, ih, List.length_cons]; omega
+
+/-- the specification puts the array axes after the axes of the plain prefix -/
+theorem specAtoms_axesBeforeAdv (w : Nat) (e : Entry) (suf : List Entry) (he : e.isArrE = true) :
+    ∀ (pfx : List Entry), pfx.all Entry.isPlain = true → ∀ (rest : Shape) (sats : List SAtom),
+    EllFits w rest.length (pfx ++ e :: suf) → specAtoms w rest (pfx ++ e :: suf) = some sats →
+    SAtom.axesBeforeAdv sats = pfxAxes w pfx := by
+  intro pfx
+  induction pfx with
+  | nil =>
+    intro _ rest sats _ h
+    simp only [List.nil_append] at h
+    cases e with
+    | iarr v m =>
+      cases rest with
+      | nil => simp [specAtoms] at h
+      | cons n sh =>
+        rw [specAtoms_cons_cons w n sh _ suf (by simp) (by simp) (by simp)] at h
+        cases hs : specAtoms w sh suf with
+        | none => simp [specEntry, hs] at h
+        | some x =>
+          simp only [specEntry, hs, Option.bind_some, Option.map_some, Option.some.injEq] at h
+          subst h; rfl
+    | barr v m =>
+      simp only [specAtoms] at h
+      split at h
+      · cases hs : specAtoms w (rest.drop v.shape.length) suf with
+        | none => simp [hs] at h
+        | some x => simp only [hs, Option.map_some, Option.some.injEq] at h; subst h; rfl
+      · simp at h
+    | _ => simp [Entry.isArrE] at he
+  | cons x pfx ih =>
+    intro hp rest sats hfit h
+    simp only [List.all_cons, Bool.and_eq_true] at hp
+    obtain ⟨hpx, hps⟩ := hp
+    simp only [List.cons_append] at h hfit
+    obtain ⟨hf1, hf2⟩ := hfit
+    cases x with
+    | none =>
+      rw [specAtoms_none] at h
+      cases hs : specAtoms w rest (pfx ++ e :: suf) with
+      | none => simp [hs] at h
+      | some y =>
+        simp only [hs, Option.map_some, Option.some.injEq] at h; subst h
+        have := ih hps rest y (by simpa [Entry.padv, Entry.isEll, Entry.advance] using hf2) hs
+        simp [SAtom.axesBeforeAdv, pfxAxes, Entry.isEll, this]
+    | ell =>
+      rw [specAtoms_ell] at h
+      cases hs : specAtoms w (rest.drop w) (pfx ++ e :: suf) with
+      | none => simp [hs] at h
+      | some y =>
+        simp only [hs, Option.map_some, Option.some.injEq] at h; subst h
+        have hw : w ≤ rest.length := hf1 rfl
+        have := ih hps (rest.drop w) y (by simpa [Entry.padv, Entry.isEll, List.length_drop] using hf2) hs
+        rw [axesBeforeAdv_axes_append, this]
+        simp [pfxAxes, Entry.isEll, List.length_take, Nat.min_eq_left hw]
+    | slice full l =>
+      cases rest with
+      | nil => simp [specAtoms] at h
+      | cons n sh =>
+        rw [specAtoms_cons_cons w n sh _ _ (by simp) (by simp) (by simp)] at h
+        cases hs : specAtoms w sh (pfx ++ e :: suf) with
+        | none => cases hq : specEntry n (.slice full l) <;> simp [hq, hs] at h
+        | some y =>
+          simp only [specEntry] at h
+          split at h
+          · simp only [hs, Option.bind_some, Option.map_some, Option.some.injEq] at h; subst h
+            have := ih hps sh y (by simpa [Entry.padv, Entry.isEll, Entry.advance] using hf2) hs
+            simp [SAtom.axesBeforeAdv, pfxAxes, Entry.isEll, Entry.advance, this]
+          · simp at h
+    | bool v m =>
+      cases rest with
+      | nil => simp [specAtoms] at h
+      | cons n sh =>
+        rw [specAtoms_cons_cons w n sh _ _ (by simp) (by simp) (by simp)] at h
+        cases hs : specAtoms w sh (pfx ++ e :: suf) with
+        | none => simp [specEntry, hs] at h
+        | some y =>
+          simp only [specEntry, hs, Option.bind_some, Option.map_some, Option.some.injEq] at h; subst h
+          have := ih hps sh y (by simpa [Entry.padv, Entry.isEll, Entry.advance] using hf2) hs
+          cases m <;> cases v <;> simp [SAtom.axesBeforeAdv, pfxAxes, Entry.isEll, Entry.advance, this]
+    | _ => simp [Entry.isPlain] at hpx
+
+
+/-! #### blocks of advanced entries -/
+
+
+theorem dropWhile_falses (a : Nat) (l : List Bool) :
+    (List.replicate a false ++ l).dropWhile (!·) = l.dropWhile (!·) := by
+  induction a with
+  | zero => simp
+  | succ k ih => simp [List.replicate_succ, List.dropWhile_cons, ih]
+
+theorem dropWhile_falses' (a : Nat) : (List.replicate a false).dropWhile (!·) = [] := by
+  have := dropWhile_falses a []
+  simpa using this
+
+theorem dropWhile_trues (n : Nat) (l : List Bool) (hn : 0 < n) :
+    (List.replicate n true ++ l).dropWhile (!·) = List.replicate n true ++ l := by
+  cases n with
+  | zero => omega
+  | succ k => simp [List.replicate_succ, List.dropWhile_cons]
+
+/-- a block of advanced entries is not "separated" -/
+theorem separated_block (a n c : Nat) :
+    separated (List.replicate a false ++ List.replicate n true ++ List.replicate c false) = false := by
+  unfold separated
+  rw [List.append_assoc, dropWhile_falses]
+  cases n with
+  | zero => simp [dropWhile_falses']
+  | succ k =>
+    rw [dropWhile_trues (k + 1) _ (by omega)]
+    simp only [List.reverse_append, List.reverse_replicate]
+    rw [dropWhile_falses]
+    have := dropWhile_trues (k + 1) [] (by omega)
+    simp only [List.append_nil] at this
+    rw [this]
+    simp
+
+theorem take_block (a n k : Nat) (X : List Bool) (hk : k ≤ n) :
+    ((List.replicate a false ++ List.replicate n true ++ X).take (a + k)).drop a = List.replicate k true := by
+  rw [List.append_assoc, List.take_append]
+  simp only [List.length_replicate, List.take_replicate]
+  have h1 : min (a + k) a = a := by omega
+  have h2 : a + k - a = k := by omega
+  rw [h1, h2, List.take_append]
+  simp only [List.length_replicate, List.take_replicate]
+  have h3 : min k n = k := by omega
+  have h4 : k - n = 0 := by omega
+  rw [h3, h4]
+  simp [List.drop_append]
+
+/-- `locate` (indexer.py, repaired) for a prepared index whose advanced entries form one block
+    `[a, a+n)` that starts with the first array entry and contains the last one (at `a + k`) -/
+theorem locate_block (pre : List NEntry) (ellK : Option Nat) (w a n c j k : Nat)
+    (hadv : pre.map NEntry.isAdv = List.replicate a false ++ List.replicate n true ++ List.replicate c false)
+    (h1 : pre.findIdx? NEntry.isArr = some a) (h2 : pre.reverse.findIdx? NEntry.isArr = some j)
+    (hk : pre.length - 1 - j = a + k) (hkn : k ≤ n) :
+    locate pre ellK w = (((pre.take a).filter NEntry.isNC).length + ellCorr ellK a w, false) := by
+  have hdrop : ((pre.map NEntry.isAdv).take (a + k)).drop a = List.replicate k true := by
+    rw [hadv]; exact take_block a n k _ hkn
+  have hsep : separated (pre.map NEntry.isAdv) = false := by rw [hadv]; exact separated_block a n c
+  unfold locate
+  simp only [h1, h2, Option.getD_some, hk, hdrop, hsep]
+  have hfl : ∀ (f : NEntry → Bool), (∀ x, f x = NEntry.isNC x) →
+      ((pre.take a).filter f).length = ((pre.take a).filter NEntry.isNC).length := by
+    intro f hf
+    have : f = NEntry.isNC := funext hf
+    rw [this]
+  rw [hfl _ (fun x => by cases x <;> rfl)]
+  have hall : (List.replicate k true).all id = true := by simp
+  simp only [hall, Bool.not_true, Bool.and_false]
+  cases ellK with
+  | none => simp [ellCorr]
+  | some kk => by_cases hkk : kk < a <;> simp [ellCorr, hkk]
+
+theorem findIdx_skip : ∀ (l0 rest : List Entry), (∀ x ∈ l0, x.isArrE = false) →
+    (l0 ++ rest).findIdx? Entry.isArrE = (rest.findIdx? Entry.isArrE).map (· + l0.length) := by
+  intro l0
+  induction l0 with
+  | nil => intro rest _; simp
+  | cons x r ih =>
+    intro rest h
+    have hx : x.isArrE = false := h x (by simp)
+    simp only [List.cons_append, List.findIdx?_cons, hx, ih rest (fun y hy => h y (by simp [hy])),
+      List.length_cons]
+    cases rest.findIdx? Entry.isArrE with
+    | none => rfl
+    | some i => simp; omega
+
+theorem findIdx_le : ∀ (l1 : List Entry) (e : Entry) (l2 : List Entry), e.isArrE = true →
+    ∃ i, i ≤ l1.length ∧ (l1 ++ e :: l2).findIdx? Entry.isArrE = some i := by
+  intro l1
+  induction l1 with
+  | nil => intro e l2 he; exact ⟨0, by simp, by simp [List.findIdx?_cons, he]⟩
+  | cons x r ih =>
+    intro e l2 he
+    cases hx : x.isArrE with
+    | true => exact ⟨0, by simp, by simp [List.findIdx?_cons, hx]⟩
+    | false =>
+      obtain ⟨i, hi, hf⟩ := ih e l2 he
+      exact ⟨i + 1, by simp; omega, by simp [List.findIdx?_cons, hx, hf]⟩
+
+theorem map_const {α : Type} (f : α → Bool) (b : Bool) : ∀ (l : List α), (∀ x ∈ l, f x = b) →
+    l.map f = List.replicate l.length b := by
+  intro l
+  induction l with
+  | nil => intro _; rfl
+  | cons x r ih =>
+    intro h
+    simp [List.replicate_succ, h x (by simp), ih (fun y hy => h y (by simp [hy]))]
+
+theorem bcastAll_const (B : Shape) : ∀ (l : List Shape), (∀ s ∈ l, s = B) → l ≠ [] → bcastAll l = some B := by
+  intro l
+  induction l with
+  | nil => intro _ h; exact absurd rfl h
+  | cons x r ih =>
+    intro h _
+    have hx : x = B := h x (by simp)
+    subst hx
+    cases r with
+    | nil => simp [bcastAll]; exact bcast_nil_right x
+    | cons y r' =>
+      rw [bcastAll, ih (fun s hs => h s (by simp [hs])) (by simp)]
+      exact bcast_self x
+
+theorem arrShapes_axes (L : List Nat) : SAtom.arrShapes (L.map fun n => SAtom.axis (List.range n) false) = [] := by
+  induction L with
+  | nil => rfl
+  | cons n L ih => simpa [SAtom.arrShapes] using ih
+
+/-- an index with an array entry resolves to atoms with an array atom -/
+theorem specAtoms_has_arr (w : Nat) (e : Entry) (tail : List Entry) (he : e.isArrE = true) :
+    ∀ (pfx : List Entry), pfx.all Entry.isPlain = true → ∀ (rest : Shape) (sats : List SAtom),
+    specAtoms w rest (pfx ++ e :: tail) = some sats → SAtom.arrShapes sats ≠ [] := by
+  intro pfx
+  induction pfx with
+  | nil =>
+    intro _ rest sats h
+    simp only [List.nil_append] at h
+    cases e with
+    | iarr v m =>
+      cases rest with
+      | nil => simp [specAtoms] at h
+      | cons n sh =>
+        rw [specAtoms_cons_cons w n sh _ tail (by simp) (by simp) (by simp)] at h
+        cases hs : specAtoms w sh tail with
+        | none => simp [specEntry, hs] at h
+        | some x =>
+          simp only [specEntry, hs, Option.bind_some, Option.map_some, Option.some.injEq] at h
+          subst h; simp [SAtom.arrShapes]
+    | barr v m =>
+      simp only [specAtoms] at h
+      split at h
+      · cases hs : specAtoms w (rest.drop v.shape.length) tail with
+        | none => simp [hs] at h
+        | some x => simp only [hs, Option.map_some, Option.some.injEq] at h; subst h; simp [SAtom.arrShapes]
+      · simp at h
+    | _ => simp [Entry.isArrE] at he
+  | cons x pfx ih =>
+    intro hp rest sats h
+    simp only [List.all_cons, Bool.and_eq_true] at hp
+    obtain ⟨hpx, hps⟩ := hp
+    simp only [List.cons_append] at h
+    cases x with
+    | none =>
+      rw [specAtoms_none] at h
+      cases hs : specAtoms w rest (pfx ++ e :: tail) with
+      | none => simp [hs] at h
+      | some y =>
+        simp only [hs, Option.map_some, Option.some.injEq] at h; subst h
+        simpa [SAtom.arrShapes] using ih hps rest y hs
+    | ell =>
+      rw [specAtoms_ell] at h
+      cases hs : specAtoms w (rest.drop w) (pfx ++ e :: tail) with
+      | none => simp [hs] at h
+      | some y =>
+        simp only [hs, Option.map_some, Option.some.injEq] at h; subst h
+        rw [arrShapes_append, arrShapes_axes]
+        simpa using ih hps _ y hs
+    | slice full l =>
+      cases rest with
+      | nil => simp [specAtoms] at h
+      | cons n sh =>
+        rw [specAtoms_cons_cons w n sh _ _ (by simp) (by simp) (by simp)] at h
+        cases hs : specAtoms w sh (pfx ++ e :: tail) with
+        | none => cases hq : specEntry n (.slice full l) <;> simp [hq, hs] at h
+        | some y =>
+          simp only [specEntry] at h
+          split at h
+          · simp only [hs, Option.bind_some, Option.map_some, Option.some.injEq] at h; subst h
+            simpa [SAtom.arrShapes] using ih hps sh y hs
+          · simp at h
+    | bool v m =>
+      cases rest with
+      | nil => simp [specAtoms] at h
+      | cons n sh =>
+        rw [specAtoms_cons_cons w n sh _ _ (by simp) (by simp) (by simp)] at h
+        cases hs : specAtoms w sh (pfx ++ e :: tail) with
+        | none => simp [specEntry, hs] at h
+        | some y =>
+          simp only [specEntry, hs, Option.bind_some, Option.map_some, Option.some.injEq] at h; subst h
+          cases m <;> cases v <;> simpa [SAtom.arrShapes] using ih hps sh y hs
+    | _ => simp [Entry.isPlain] at hpx
+
+/-! #### array entries separated by a plain entry: NumPy's front placement and the relocation -/
+
+theorem dropWhile_stops (R : List Bool) : ∀ (A : List Bool),
+    ∃ A', (A ++ true :: R).dropWhile (!·) = A' ++ true :: R := by
+  intro A
+  induction A with
+  | nil => exact ⟨[], by simp [List.dropWhile_cons]⟩
+  | cons x r ih =>
+    cases x with
+    | true => exact ⟨true :: r, by simp [List.dropWhile_cons]⟩
+    | false =>
+      obtain ⟨A', h⟩ := ih
+      exact ⟨A', by simpa [List.dropWhile_cons] using h⟩
+
+/-- a non-advanced entry between two advanced ones: NumPy's "separated" -/
+theorem separated_true (A X Y Z : List Bool) :
+    separated (A ++ true :: (X ++ false :: (Y ++ true :: Z))) = true := by
+  unfold separated
+  obtain ⟨A', h1⟩ := dropWhile_stops (X ++ false :: (Y ++ true :: Z)) A
+  rw [h1]
+  have hrev : (A' ++ true :: (X ++ false :: (Y ++ true :: Z))).reverse
+      = Z.reverse ++ true :: (Y.reverse ++ false :: (X.reverse ++ true :: A'.reverse)) := by
+    simp
+  rw [hrev]
+  obtain ⟨B', h2⟩ := dropWhile_stops (Y.reverse ++ false :: (X.reverse ++ true :: A'.reverse)) Z.reverse
+  rw [h2]
+  simp
+
+/-- `locate` when a non-advanced entry stands between the first and the last array entry and
+    the array axes do not come first: the axes are relocated -/
+theorem locate_sep (pre : List NEntry) (ellK : Option Nat) (w a j t : Nat)
+    (h1 : pre.findIdx? NEntry.isArr = some a) (h2 : pre.reverse.findIdx? NEntry.isArr = some j)
+    (hat : a ≤ t) (htk : t < pre.length - 1 - j) (hf : (pre.map NEntry.isAdv)[t]? = some false)
+    (hL : 0 < ((pre.take a).filter NEntry.isNC).length + ellCorr ellK a w) :
+    locate pre ellK w = (((pre.take a).filter NEntry.isNC).length + ellCorr ellK a w, true) := by
+  have hslice : (((pre.map NEntry.isAdv).take (pre.length - 1 - j)).drop a).all id = false := by
+    rw [List.all_eq_false]
+    refine ⟨false, ?_, by simp⟩
+    rw [List.mem_iff_getElem?]
+    refine ⟨t - a, ?_⟩
+    rw [List.getElem?_drop, List.getElem?_take]
+    have : a + (t - a) = t := by omega
+    simp [this, htk, hf]
+  unfold locate
+  simp only [h1, h2, Option.getD_some, hslice]
+  have hfl : ∀ (f : NEntry → Bool), (∀ x, f x = NEntry.isNC x) →
+      ((pre.take a).filter f).length = ((pre.take a).filter NEntry.isNC).length := by
+    intro f hf
+    have : f = NEntry.isNC := funext hf
+    rw [this]
+  rw [hfl _ (fun x => by cases x <;> rfl)]
+  generalize ((pre.take a).filter NEntry.isNC).length = c at hL ⊢
+  cases ellK with
+  | none =>
+    simp only [ellCorr, Nat.add_zero] at hL ⊢
+    have : decide (c > 0) = true := by simpa using hL
+    simp [this]
+  | some kk =>
+    by_cases hkk : kk < a
+    · simp only [ellCorr, hkk, if_true] at hL ⊢
+      have : decide (c + w > 0) = true := by simpa using hL
+      simp [this]
+    · simp only [ellCorr, hkk, if_false, Nat.add_zero] at hL ⊢
+      have : decide (c > 0) = true := by simpa using hL
+      simp [this]
+
+/-- the NumPy-layout coordinate of a valid relocated coordinate is valid -/
+theorem valid_move {A B C : Shape} {o : Index} (hv : Valid (A ++ B ++ C) o) :
+    Valid (B ++ (A ++ C)) ((o.drop A.length).take B.length ++ (o.take A.length ++ o.drop (A.length + B.length))) := by
+  have hlen := valid_length hv
+  simp only [List.length_append] at hlen
+  have h1 : o = o.take A.length ++ ((o.drop A.length).take B.length ++ (o.drop A.length).drop B.length) := by
+    rw [List.take_append_drop, List.take_append_drop]
+  have hA : (o.take A.length).length = A.length := by simp [List.length_take]; omega
+  have hB : ((o.drop A.length).take B.length).length = B.length := by
+    simp [List.length_take, List.length_drop]; omega
+  rw [h1, List.append_assoc] at hv
+  have v1 := (valid_append hA).1 hv
+  have v2 := (valid_append hB).1 v1.2
+  have hdd : (o.drop A.length).drop B.length = o.drop (A.length + B.length) := by simp [List.drop_drop, Nat.add_comm]
+  rw [hdd] at v2
+  exact (valid_append hB).2 ⟨v2.1, (valid_append hA).2 ⟨v1.1, v2.2⟩⟩
 
 end PMV.Index
